@@ -822,7 +822,7 @@ private:
           {
             transit_event.logger_base->backtrace_storage->process(
               [this](TransitEvent const& te, std::string_view thread_id, std::string_view thread_name)
-              { _dispatch_transit_event_to_sinks(te, thread_id, thread_name); });
+              { _dispatch_backtrace_transit_event_to_sinks(te, thread_id, thread_name); });
           }
         }
       }
@@ -866,7 +866,7 @@ private:
         // process all records in backtrace for this logger and log them
         transit_event.logger_base->backtrace_storage->process(
           [this](TransitEvent const& te, std::string_view thread_id, std::string_view thread_name)
-          { _dispatch_transit_event_to_sinks(te, thread_id, thread_name); });
+          { _dispatch_backtrace_transit_event_to_sinks(te, thread_id, thread_name); });
       }
     }
     else if (transit_event.macro_metadata->event() == MacroMetadata::Event::Flush)
@@ -881,6 +881,26 @@ private:
 
       // We defer notifying the caller until after this function completes.
     }
+  }
+
+  /**
+   * Dispatches a stored backtrace transit event. Each stored event gets its own try/catch, like
+   * any other event. If a sink throws the exception must not leave BacktraceStorage::process,
+   * otherwise the storage is not cleared and the events that were already written are written
+   * again on the next backtrace flush, while the remaining ones are skipped.
+   */
+  void _dispatch_backtrace_transit_event_to_sinks(TransitEvent const& transit_event,
+                                                  std::string_view const& thread_id,
+                                                  std::string_view const& thread_name)
+  {
+    QUILL_TRY { _dispatch_transit_event_to_sinks(transit_event, thread_id, thread_name); }
+#if !defined(QUILL_NO_EXCEPTIONS)
+    QUILL_CATCH(std::exception const& e) { _options.error_notifier(e.what()); }
+    QUILL_CATCH_ALL()
+    {
+      _options.error_notifier(std::string{"Caught unhandled exception."});
+    } // clang-format on
+#endif
   }
 
   /**
